@@ -4,6 +4,7 @@ import time
 
 import vlib
 from fam import kfl
+from fam import kfltext
 
 ENTRY_POINTS = ["Validate", "ExpandMacros", "Parse", "Precompute", "EvalAfterPrecompute", "EvalParsedOnly", "PrepareQuery", "Eval", "Apply"]
 
@@ -13,6 +14,7 @@ CORPUS = [
     ('a.xml().r == "1"', '{"a":"<r><b x=\\"2\\">1</b></r>"}'), ('a.xml()[0]', '{"a":"<r><b x=\\"2\\">1</b></r>"}'),
     ('a.(1)', '{"a":1}'), ('a.b.(1)', '{"a":1}'), ('seconds(1, 2) > 3', '{}'), ('a.xml(1, 2)', '{"a":"<r/>"}'),
     ("(" * 100000 + "a" + ")" * 100000, '{"a":1}'),
+    ('redact("a.xml().doc.b.item")', '{"a":"<doc><b>x</b><b><item>y</item></b></doc>"}'),
 ]
 RECORDS4 = ['{"a":{"b":"xy","k":[1,2]},"b":"{\\"c\\":1}","c":[{"k":1},"s",null]}',
             '{"a":"<r><b x=\\"2\\">1</b><b><c>2</c></b></r>","b":"eyJjIjoxfQ==","c":1.5}',
@@ -51,6 +53,10 @@ def run(ctx):
         cases.append(("garbage-query", g, rng.choice(RECORDS4)))
     for g in kfl.garbage_strings(rng, ngarb):
         cases.append(("garbage-record", rng.choice(['a', 'a.json().b', 'true', 'a.xml().r == "1"', 'redact("a")', 'a.* == 1 and b..c']), g))
+    # redaction paths over structured records (the C15 generator: plain, bracket, wildcard, descent, negative and
+    # out-of-range indices alone and behind wildcards, hops into nested documents, missing paths, several arguments)
+    for c in kfltext.gen_c15(ctx, 300 if quick else 3000):
+        cases.append(("redact-path", c["query"], c["record"]))
     depth = 100000          # beyond what the Go stack (1 GB) carries if the parser recursed that deep
     for i, form in enumerate(kfl.DEEP_FORMS):
         d = min(depth, 20000) if i == 6 else depth          # the long dotted path is quadratic in the parser
